@@ -69,6 +69,8 @@ def run_one(prop: str, spec: dict, workdir: str, timeout: float) -> dict:
     with open(spec_file, "w") as fh:
         json.dump(spec, fh)
     cmd = [env.PY, "-X", "faulthandler", "-m", "qv.shard", prop, spec_file, out_file]
+    if os.environ.get("QV_COVERAGE"):  # developer aid: which package lines / branches do the workloads reach?
+        cmd = [env.PY, "-m", "coverage", "run", "-p", "--branch", f"--source={env.SRC}/quansino", f"--data-file={os.environ['QV_COVERAGE']}/.coverage", "-m", "qv.shard", prop, spec_file, out_file]
     t0 = time.time()
     try:
         p = subprocess.run(
